@@ -46,6 +46,8 @@ def make_docs(rng, n):
         pkg = g.package()
         if i % 3 == 0:
             pkg.embedded_style_map = "p.Normal => p.n\nr.Emph => em"
+        if i % 2 == 1:
+            pkg.meta["alt_parts"] = True       # several relationships of one type to existing parts: which one is read must not depend on anything
         data, parts = B.build(pkg)
         out.append((pkg, data, parts))
     # list-heavy documents: the markdown writer keeps per-conversion list state (nesting, numbering) while it writes
